@@ -99,3 +99,92 @@ fn c08_3b_heap_order_earliest_on_top() {
     std::mem::forget(a);
     std::mem::forget(b);
 }
+
+static mut LIST_ADDS: usize = 0;
+static mut LIST_ADD_DUR: Option<Duration> = None;
+static mut LIST_IS_HEAD: bool = false;
+static mut THREAD_UNPARKS: usize = 0;
+static mut STUB_Q: *const TimeoutQueue<TimeoutData<usize>> = std::ptr::null();
+
+/// contract of `TimeOutList::add_timer` (C08.2v deadline; list/heap installation not under contract): the entry is in a
+/// list, and the flag says whether it became the head of its list (the timer thread has to recompute its sleep)
+fn list_add_timer_contract<T>(_l: &TimeOutList<T>, dur: Duration, data: T) -> (TimeoutHandle<T>, bool) {
+    unsafe {
+        LIST_ADDS += 1;
+        LIST_ADD_DUR = Some(dur);
+        let q = &*(STUB_Q as *const TimeoutQueue<TimeoutData<T>>);
+        let (h, _) = q.push(TimeoutData { time: 0, data });
+        (h, LIST_IS_HEAD)
+    }
+}
+fn thread_unpark_stub(_t: &thread::Thread) {
+    unsafe { THREAD_UNPARKS += 1 };
+}
+
+//@ obligation: C08.5a
+//@ property: C08
+//@ kind: K3
+//@ complete: yes
+//@ functions: TimerThread::add_timer, TimerThread::del_timer
+//@ statement: TimerThread::add_timer passes exactly the caller's duration to the list, once, and — when the new entry became the head of its list (it may be the
+//@ statement: next timer to fire) — wakes the registered timer thread so that it recomputes its sleep; del_timer queues the handle for removal and wakes the
+//@ statement: timer thread. Without the wake-up the timer thread sleeps until its previous deadline (or for ever) and the new timer fires late or never
+#[kani::proof]
+#[kani::stub(crate::timeout_list::TimeOutList::add_timer, list_add_timer_contract)]
+#[kani::stub(std::thread::Thread::unpark, thread_unpark_stub)]
+#[kani::stub(may_queue::mpsc::Queue::push, remove_list_push_stub)]
+#[kani::unwind(3)]
+fn c08_5a_timer_thread_is_woken_for_a_new_head() {
+    let q: &'static TimeoutQueue<TimeoutData<usize>> = Box::leak(Box::new(TimeoutQueue::new()));
+    let tt: &'static TimerThread<usize> = unsafe {
+        let p = Box::into_raw(Box::<TimerThread<usize>>::new_uninit()) as *mut TimerThread<usize>;
+        std::ptr::addr_of_mut!((*p).wakeup).write(AtomicOption::none());
+        &*p
+    };
+    let registered: bool = kani::any();
+    let secs: u64 = kani::any();
+    let nanos: u32 = kani::any();
+    kani::assume(nanos < 1_000_000_000);
+    let d = Duration::new(secs, nanos);
+    unsafe {
+        STUB_Q = q;
+        LIST_ADDS = 0;
+        THREAD_UNPARKS = 0;
+        REMOVE_PUSHES = 0;
+        LIST_IS_HEAD = kani::any();
+    }
+    if registered {
+        tt.wakeup.store(fake_thread_handle());
+    }
+    let h = tt.add_timer(d, 7);
+    unsafe {
+        assert!(LIST_ADDS == 1 && LIST_ADD_DUR == Some(d), "[C08.5-exact-duration] the timer thread front end passes exactly the caller's duration to the list, once");
+        let expect = if LIST_IS_HEAD && registered { 1 } else { 0 };
+        assert!(THREAD_UNPARKS >= expect, "[C08.5-wake-for-new-head] a timer that became the head of its list: the sleeping timer thread must be woken to recompute its sleep, otherwise it fires late or never");
+        if !registered {
+            assert!(THREAD_UNPARKS == 0, "[C08.5-nobody-to-wake] with no timer thread registered nobody is woken");
+        }
+    }
+    // removal
+    if registered {
+        tt.wakeup.store(fake_thread_handle());
+    }
+    let before = unsafe { THREAD_UNPARKS };
+    tt.del_timer(h);
+    unsafe {
+        assert!(REMOVE_PUSHES == 1, "[C08.5-removal-queued] del_timer queues the handle for the timer thread, once");
+        assert!(THREAD_UNPARKS >= before + if registered { 1 } else { 0 }, "[C08.5-wake-for-removal] the timer thread is woken to process the removal");
+    }
+}
+static mut REMOVE_PUSHES: usize = 0;
+/// an `Arc<Thread>` that is never dereferenced (`Thread::unpark` is an observation point) and never freed;
+/// `thread::current()` reaches a thread-local with a destructor and with it the kani-compiler ICE on catch_unwind
+fn fake_thread_handle() -> Arc<thread::Thread> {
+    let a: Arc<thread::Thread> = Arc::new(unsafe { std::mem::MaybeUninit::<thread::Thread>::zeroed().assume_init() });
+    std::mem::forget(a.clone());
+    a
+}
+fn remove_list_push_stub<T>(_q: &Queue<T>, v: T) {
+    unsafe { REMOVE_PUSHES += 1 };
+    std::mem::forget(v);
+}
